@@ -99,10 +99,11 @@ AST_TESTS = {
     "is_typing_name(root, 'Unpack')": "FUnpack",
     "root is Callable or root is typing.Callable": "FCallable",
     "isinstance(root, type)": "FGenericClass",
+    "is_instance_of_typing_name(root, 'TypeAliasType')": "FTypeAlias",
 }
 AST_IGNORED = {  # recognised forms outside the model's vocabulary (their presence does not matter to the model)
     "is_typing_name(root, 'TypeGuard')", "is_typing_name(root, 'TypeIs')", "is_typing_name(root, 'Required')",
-    "is_typing_name(root, 'NotRequired')", "is_typing_name(root, 'ReadOnly')", "root is AsynqCallable", "is_instance_of_typing_name(root, 'TypeAliasType')", "<else>",
+    "is_typing_name(root, 'NotRequired')", "is_typing_name(root, 'ReadOnly')", "root is AsynqCallable", "<else>",
 }
 AST_ACTIONS = {
     "return unite_values(*[_type_from_value(elt, ctx) for elt in members])": "ActUniteMembers",
@@ -119,6 +120,7 @@ AST_ACTIONS = {
     "return UnpackedValue(_type_from_value(members[0], ctx))": "ActUnpacked",
     "if len(members) == 2:\n    args, return_value = members\n    return _make_callable_from_value(args, return_value, ctx)\nctx.show_error('Callable requires exactly two arguments')\nreturn AnyValue(AnySource.error)": "ActCallable",
     "return GenericValue(root, [_type_from_value(elt, ctx) for elt in members])": "ActGenericOf",
+    "alias_object = cast(Any, root)\nalias = ctx.get_type_alias(root, lambda: type_from_runtime(alias_object.__value__, ctx=ctx), lambda: alias_object.__type_params__)\nreturn TypeAliasValue(alias_object.__name__, alias_object.__module__, alias, tuple((_type_from_value(elt, ctx) for elt in members)))": "ActAliasOf",
 }
 TUPLE_AST = {
     "len(members) == 2 and members[1] == KnownValue(Ellipsis)": "FTupleVar",
@@ -188,10 +190,11 @@ RT_TESTS = {
     "is_typing_name(origin, 'Final')": "FFinal",
     "is_typing_name(origin, 'ClassVar')": "FClassVar",
     "is_typing_name(origin, 'Unpack')": "FUnpack",
+    "is_instance_of_typing_name(origin, 'TypeAliasType')": "FTypeAlias",
 }
 RT_IGNORED = {
     "is_typing_name(origin, 'TypeGuard')", "is_typing_name(origin, 'TypeIs')", "is_typing_name(origin, 'Required')",
-    "is_typing_name(origin, 'NotRequired')", "is_typing_name(origin, 'ReadOnly')", "is_instance_of_typing_name(origin, 'TypeAliasType')", "<else>",
+    "is_typing_name(origin, 'NotRequired')", "is_typing_name(origin, 'ReadOnly')", "<else>",
 }
 RT_ACTIONS = {
     "if not args:\n    return TypedValue(type)\nreturn SubclassValue.make(_type_from_runtime(args[0], ctx))": "ActSubclassMake",
@@ -206,6 +209,7 @@ RT_ACTIONS = {
     "if len(args) == 1:\n    return KnownValue(args[0])\nelse:\n    return unite_values(*[KnownValue(arg) for arg in args])": "(ActUniteLiterals true)",
     "return _type_from_runtime(args[0], ctx)": "ActTransparent",
     "return UnpackedValue(_type_from_runtime(args[0], ctx))": "ActUnpacked",
+    "args_vals = [_type_from_runtime(val, ctx) for val in args]\nalias_object = cast(Any, origin)\nalias = ctx.get_type_alias(val, lambda: type_from_runtime(alias_object.__value__, ctx=ctx), lambda: alias_object.__type_params__)\nreturn TypeAliasValue(alias_object.__name__, alias_object.__module__, alias, tuple(args_vals))": "ActAliasOf",
 }
 TUPLE_RT = {
     "not args": "FTupleBare",
